@@ -3,5 +3,7 @@ package checks
 
 import (
 	_ "verifmc/checks/c01"
+	_ "verifmc/checks/c02"
+	_ "verifmc/checks/c06"
 	_ "verifmc/checks/c15"
 )
